@@ -83,11 +83,24 @@ pub fn main(args: &[String]) -> i32 {
         let mut rng = StdRng::seed_from_u64(idx + 18100);
         let strvals: Vec<String> = v["strvals"].as_array().unwrap().iter().map(|s| s.as_str().unwrap().to_string()).collect();
         let numvals: Vec<u64> = v["numvals"].as_array().unwrap().iter().map(|s| s.as_str().unwrap().parse().unwrap()).collect();
-        // tag 8 is numeric, every other tag a string
+        let timevals: Vec<chrono::DateTime<chrono::Utc>> = v["timevals"]
+            .as_array()
+            .unwrap()
+            .iter()
+            .map(|s| match s.as_str().unwrap() {
+                "MIN" => chrono::DateTime::<chrono::Utc>::MIN_UTC,
+                // the latest instant, at the millisecond resolution of timestamp attributes
+                "MAX" => chrono::DateTime::<chrono::Utc>::from_timestamp_millis(chrono::DateTime::<chrono::Utc>::MAX_UTC.timestamp_millis()).unwrap(),
+                t => chrono::DateTime::parse_from_rfc3339(t).unwrap().with_timezone(&chrono::Utc),
+            })
+            .collect();
+        // tag 8 is numeric, tag 3 a point in time, every other tag a string
         let attr = |tag: u64, i: &J| -> Web3IdAttribute {
             let i = i.as_u64().unwrap() as usize;
             if tag == 8 {
                 Web3IdAttribute::Numeric(numvals[i - 1])
+            } else if tag == 3 {
+                Web3IdAttribute::try_from(timevals[(i - 1).min(timevals.len() - 1)]).expect("every date-time has an attribute value")
             } else {
                 Web3IdAttribute::String(AttributeKind::try_new(strvals[(i - 1).min(strvals.len() - 1)].clone()).unwrap())
             }
@@ -128,6 +141,36 @@ pub fn main(args: &[String]) -> i32 {
         let mut values = BTreeMap::new();
         values.insert(AttributeTag(0), attr(0, &v["a0"]));
         values.insert(AttributeTag(8), attr(8, &v["a8"]));
+        values.insert(AttributeTag(3), attr(3, &v["a3"]));
+        // date-times and their attribute values: the conversion is invertible and keeps the order
+        if idx % 16 == 0 {
+            let mut prev: Option<Web3IdAttribute> = None;
+            for t in timevals.iter() {
+                let a = Web3IdAttribute::try_from(*t).map_err(|e| (format!("date-time {} has an attribute value", t), J::Null, json!(e.to_string())))?;
+                match chrono::DateTime::<chrono::Utc>::try_from(&a) {
+                    Ok(back) if back == *t => {}
+                    other => return fail(format!("attribute value of date-time {} converts back to it", t), json!(t.to_string()), json!(format!("{:?}", other))),
+                }
+                if let Some(p) = &prev {
+                    use concordium_base::curve_arithmetic::Field;
+                    let _ = <G as Curve>::Scalar::zero();
+                    let (x, y) = match (p, &a) {
+                        (Web3IdAttribute::Timestamp(x), Web3IdAttribute::Timestamp(y)) => (x.timestamp_millis(), y.timestamp_millis()),
+                        _ => return fail("date-times become timestamp attributes".into(), J::Null, J::Null),
+                    };
+                    if x >= y {
+                        return fail(format!("attribute values of date-times keep their order (before {})", t), json!("increasing"), json!([x, y]));
+                    }
+                }
+                let js = serde_json::to_value(&a).map_err(|e| (format!("attribute value of {} has a JSON form", t), J::Null, json!(e.to_string())))?;
+                match Web3IdAttribute::try_from(js) {
+                    Ok(b) if b == a => {}
+                    other => return fail(format!("JSON form of the attribute value of {} reads back", t), J::Null, json!(format!("{:?}", other.map(|x| x.to_string())))),
+                }
+                prev = Some(a);
+            }
+            *stats.entry("timevals".into()).or_default() += 1;
+        }
         let mut randomness = BTreeMap::new();
         let mut commitments = BTreeMap::new();
         for (t, a) in values.iter() {
@@ -142,7 +185,7 @@ pub fn main(args: &[String]) -> i32 {
         let first_inputs = if kind == "account" {
             account_inputs()
         } else {
-            let k = (v["a0"].as_u64().unwrap(), v["a8"].as_u64().unwrap());
+            let k = (v["a0"].as_u64().unwrap() * 100 + v["a3"].as_u64().unwrap(), v["a8"].as_u64().unwrap());
             let obj = id_objects.entry(k).or_insert_with(|| {
                 let mut r = StdRng::seed_from_u64(k.0 * 100 + k.1);
                 let context = IpContext::new(&ip_info, &ars_infos.anonymity_revokers, &global);
